@@ -81,6 +81,9 @@ type SvcCase struct {
 	// as soon as Shutdown returned, whether or not the previous Serve call
 	// has returned yet
 	OverlapServe bool `json:"overlap_serve,omitempty"`
+	// Owned2: the ownership lists are changed to these before the service is
+	// served for the second time
+	Owned2 *[2][]string `json:"owned2,omitempty"`
 	// BlockingConn: the connection hands messages over with blocking sends
 	// under a lock that its Close needs too (with a small in channel)
 	BlockingConn bool `json:"blocking_conn,omitempty"`
@@ -892,6 +895,12 @@ func (e *Engine) StartActors() {
 		e.serveTasks = append(e.serveTasks, e.Sim.Go(name, func() {
 			ep := e.Epochs[i]
 			e.Sim.Yield("serve.wait", strconv.Itoa(i))
+			if i == 1 && c.Owned2 != nil {
+				// a program that restarts its service with other ownership
+				// lists, as soon as the previous Serve call has returned
+				e.Sim.Probe("ownership changed between two Serve calls")
+				e.Svc.SetOwnedResources(c.Owned2[0], c.Owned2[1])
+			}
 			for try := 0; ; try++ {
 				e.cur.Store(int32(i))
 				e.H.SetEpoch(i)
